@@ -7,6 +7,8 @@ from .c03 import gen_index, key_of
 ID = 'C05'
 LEVEL = 'exploration'
 ASSUMPTIONS = [
+    'every edit is explored in two orders: at once on the fresh parse, and after every documented view, per-node text and '
+    'search of the tree has been looked at once (lazily computed state must not survive the edit)',
     'every edit is applied to a fresh parse; new material is a plain string, a fresh node (copy of a node parsed by a '
     'separate TexSoup call, one parse per use) or a fresh node textually identical to the target',
     'expected text = string splice on the source at the target\'s span (from the generating tree; text leaves by prefix '
@@ -49,7 +51,7 @@ def targets(soup, T):
     out = []
     for d in soup.descendants:
         if isinstance(d, T['TexNode']):
-            out.append(('node', d))
+            out.append(('node', d, None))
     for c in containers_of(soup, T):
         if isinstance(c.expr, T['TexCmd']) and str(c.expr.name) != 'item':
             continue
@@ -59,9 +61,9 @@ def targets(soup, T):
             continue
         if c.expr.args:
             continue        # .all mixes argument contents and body: keep to plain bodies for text leaves
-        for k in kids:
+        for j, k in enumerate(kids):
             if isinstance(k.expr, T['TexText']):
-                out.append(('leaf', k))
+                out.append(('leaf', k, j))       # j: ordinal in the container's .all (= body list, no arguments here)
     return out
 
 
@@ -83,7 +85,7 @@ def plan(src, items, tier):
     out = []
     rl = RLISTS_QUICK if tier == 'quick' else RLISTS
     tl = targets(soup, T)
-    for k, (kind, node) in enumerate(tl):
+    for k, (kind, node, ordinal) in enumerate(tl):
         if kind == 'node':
             g = index.get(key_of(node))
             if g is None:
@@ -95,15 +97,12 @@ def plan(src, items, tier):
             bs = body_start(par, index, T)
             if bs is None:
                 continue
-            s = bs
-            found = False
-            for c in par.expr._contents:
-                if c is node.expr:
-                    found = True
-                    break
-                s += len(str(c))
-            if not found:
+            # position from the ordinal of the leaf among its siblings - never from the identity of the leaf object
+            # (two equal text runs must stay two different targets)
+            sibs = par.all
+            if ordinal >= len(sibs) or len(sibs) != len(par.expr._contents):
                 continue
+            s = bs + sum(len(str(x)) for x in sibs[:ordinal])
             e = s + len(str(node))
             in_body = True
         ttext = src[s:e]
@@ -151,15 +150,18 @@ def plan(src, items, tier):
     return out
 
 
-def apply(src, edit):
-    """perform one edit on a fresh parse -> resulting text"""
+def apply(src, edit, pre=False):
+    """perform one edit on a fresh parse -> resulting text.  pre: look at every view of the tree first, so that
+    anything the library computes lazily has been computed (and may be stale) by the time of the edit"""
     soup, exc = egram.parse(src)
     if exc is not None:
         raise exc
     T = egram.types()
+    if pre:
+        egram.observe(soup)
     op = edit[0]
     if op in ('delete', 'replace_with', 'replace', 'remove'):
-        kind, node = targets(soup, T)[edit[1]]
+        kind, node, _ord = targets(soup, T)[edit[1]]
         ttext = str(node)
         if op == 'delete':
             node.delete()
@@ -188,7 +190,7 @@ def apply(src, edit):
     return str(soup)
 
 
-def check_doc(acc, src, items, tier, only=None):
+def check_doc(acc, src, items, tier, only=None, only_pre=None):
     pl = plan(src, items, tier)
     if pl is None:
         acc.extra['skipped_not_roundtripping'] += 1
@@ -197,16 +199,19 @@ def check_doc(acc, src, items, tier, only=None):
     for edit, want in pl:
         if only is not None and edit != only:
             continue
-        case = {'src': src, 'items': items, 'edit': edit, 'tier': tier}
-        try:
-            got = apply(src, edit)
-        except Exception as e:
-            acc.violation('edit-raises', case, want, egram.exc_repr(e), size)
-            continue
-        if got != want:
-            acc.violation('not-local', case, want, got, size)
-        else:
-            acc.ok(hash((src, repr(edit))), cls=edit[0])
+        for pre in (False, True):
+            if only_pre is not None and pre != only_pre:
+                continue
+            case = {'src': src, 'items': items, 'edit': edit, 'tier': tier, 'pre': pre}
+            try:
+                got = apply(src, edit, pre)
+            except Exception as e:
+                acc.violation('edit-raises', case, want, egram.exc_repr(e), size)
+                continue
+            if got != want:
+                acc.violation('not-local' if not pre else 'not-local-after-looking', case, want, got, size)
+            else:
+                acc.ok(hash((src, repr(edit), pre)), cls=edit[0])
     if acc.evals % 499 == 1 and pl:
         acc.sample({'src': src, 'edit': pl[0][0], 'expected': pl[0][1]})
 
@@ -233,7 +238,8 @@ def run_shard(shard):
 
 def replay(case):
     acc = Acc()
-    check_doc(acc, case['src'], gram.tuplify(case['items']), case.get('tier', 'quick'), only=case['edit'])
+    check_doc(acc, case['src'], gram.tuplify(case['items']), case.get('tier', 'quick'), only=case['edit'],
+              only_pre=case.get('pre'))
     return acc.viol
 
 
